@@ -971,6 +971,14 @@ def parse_invalid_expr(s, loc, toks):
 @parse_action(atom)
 def parse_atom(toks):
     loc_start, toks, loc_end = toks
+    if len(toks) > 1 and all(t in ('-', '+') for t in toks[:-1]):
+        # a signed operand, as in 2 ^ -1
+        *ops, node = toks
+        for op in reversed(ops):
+            node = UnaryOp(node, Operator.unary_op_from_token(op))
+            node.loc_start = loc_start
+            node.loc_end = loc_end
+        return [node]
     return toks
 
 
